@@ -324,6 +324,10 @@ func init() {
 				continue
 			}
 			emit(L(A("msg"), g.term, L(genHistory(r, g, 2+r.Intn(7))...)))
+			if i%4 == 0 {
+				// the failed-write check of the C14 oracle runs on this specification (the executors see a no-op)
+				emit(L(A("msg"), g.term, L(op("note", A("failedwrite")))))
+			}
 			if i%3 == 0 {
 				if ops := genResurrection(r, g); ops != nil {
 					emit(L(A("msg"), g.term, L(ops...)))
